@@ -74,5 +74,58 @@ let () = iter_lines (fun line ->
     let o x = hex_of_bytes (Stdlib.List.map int_of_z x) in
     let r = o t ^ "," ^ (match b with Some x -> o x | None -> "-") in
     Printf.printf "I %s S %s\n" r r
+  | ["fstr"; simple; sharp; usedelta; ref0; mode0; useseg; abs; s0; s1; s2; s3] ->
+    (* filter-strength table for every frame level 0..63: I = model of precomputeFilterStrengths,
+       S = the 9.6 / 15.2 formula with the level clamped once (theorem C04_filter_strength_table_eq) *)
+    let z = z_of_string in
+    let z0 = z_of_int 0 in
+    let zero4 = [z0; z0; z0; z0] in
+    let bi = Buffer.create 4096 and bs = Buffer.create 4096 in
+    for level = 0 to 63 do
+      let h = { Vp8Syntax.fh_w = z_of_int 16; fh_h = z_of_int 16; fh_xscale = z0; fh_yscale = z0;
+                fh_color = false; fh_clamp = false;
+                fh_seg = { Vp8Syntax.sg_enabled = (useseg = "1"); sg_update_map = true; sg_abs = (abs = "1");
+                           sg_quant = zero4; sg_lf = [z s0; z s1; z s2; z s3]; sg_probs = [] };
+                fh_lf = { Vp8Syntax.lf_is_simple = (simple = "1"); lf_level = z_of_int level; lf_sharp = z sharp;
+                          lf_delta_enabled = (usedelta = "1"); lf_ref = [z ref0; z0; z0; z0];
+                          lf_mode = [z mode0; z0; z0; z0] };
+                fh_log2parts = z0;
+                fh_q = { Vp8Syntax.q_base = z0; q_y1dc = z0; q_y2dc = z0; q_y2ac = z0; q_uvdc = z0; q_uvac = z0 };
+                fh_probs = []; fh_skip_enabled = false; fh_skip_prob = z0 } in
+      for seg = 0 to 3 do
+        Stdlib.List.iter (fun is4 ->
+          let ((a, b), c) = if level = 0 then ((z0, z0), z0) else Vp8Kernels.go_fstrength h (z_of_int seg) is4 in
+          Buffer.add_string bi (Printf.sprintf "%s.%s.%s " (string_of_z a) (string_of_z b) (string_of_z c));
+          let p = Vp8Kernels.lf_mb_params false h (z_of_int seg) is4 in
+          let (a, b, c) = if level = 0 || int_of_z p.Vp8Kernels.lp_level = 0 then (z0, z0, z0)
+            else (Vp8Kernels.subedge_limit p, p.Vp8Kernels.lp_interior, p.Vp8Kernels.lp_hev) in
+          Buffer.add_string bs (Printf.sprintf "%s.%s.%s " (string_of_z a) (string_of_z b) (string_of_z c)))
+          [false; true]
+      done
+    done;
+    Printf.printf "I %s S %s\n" (String.trim (Buffer.contents bi)) (String.trim (Buffer.contents bs))
+  | "benc" :: ops ->
+    (* boolean encoder: ops b<bit>:<prob>  u<bit>  v<value>:<count>  s<value>:<count>; the model's
+       bytes, and (for b/u-only sequences) whether the RFC decoder reads the bits back *)
+    let w = ref Vp8BoolEnc.bw_init in
+    let pairs = ref [] and simple = ref true in
+    Stdlib.List.iter (fun op ->
+      let body = String.sub op 1 (String.length op - 1) in
+      let two () = match String.split_on_char ':' body with [a; b] -> (a, b) | _ -> failwith "op" in
+      match op.[0] with
+      | 'b' -> let (a, p) = two () in
+        w := Vp8BoolEnc.bw_put (a = "1") (z_of_string p) !w; pairs := (a = "1", z_of_string p) :: !pairs
+      | 'u' -> w := Vp8BoolEnc.bw_put_uniform (body = "1") !w; pairs := (body = "1", z_of_int 128) :: !pairs
+      | 'v' -> let (v, n) = two () in simple := false;
+        w := Vp8BoolEnc.bw_put_bits (z_of_string v) (nat_of_int (int_of_string n)) !w
+      | _ -> let (v, n) = two () in simple := false;
+        w := Vp8BoolEnc.bw_put_signed (z_of_string v) (nat_of_int (int_of_string n)) !w) ops;
+    let out = Vp8BoolEnc.bw_finish !w in
+    let rt = if not !simple then "-" else begin
+      let ps = Stdlib.List.rev !pairs in
+      let bits = Vp8BoolAbs.rfc_bits (Stdlib.List.map snd ps) (Vp8Bool.bd_init out) in
+      if bits = Stdlib.List.map fst ps then "rt-ok" else "rt-FAIL" end in
+    let r = hex_of_bytes (Stdlib.List.map int_of_z out) ^ " " ^ rt in
+    Printf.printf "I %s S %s\n" r r
   | [] -> ()
   | _ -> print_endline "ERR bad-line")
